@@ -14,7 +14,7 @@ namespace fsim {
 
 struct FOp
 {
-    std::string k; // write | advance | restart | checkpoint
+    std::string k; // write | advance | restart | checkpoint | swrite (record for the sibling sink)
     int n = 0; // write: record size in bytes
     int cls = 0; // write: content class (0 ascii, 1 multi-byte utf-8, 2 long runs, 3 pseudo-random ascii, 4 control characters incl. CR, CR LF, embedded LF)
     int64_t ms = 0; // advance: milliseconds
@@ -37,6 +37,7 @@ struct FPlan
     int short_write_pct = 0, eintr_pct = 0;
     uint64_t fault_seed = 1;
     std::vector<int> foreign; // indices into the foreign-name menu
+    std::string sibling; // base name of a second rotating sink working in the same directory (C06), or empty
     int start_ms_of_day = 12 * 3600 * 1000;
     std::vector<FOp> ops;
     bool enumerate = false; // C10 batch mode: all crash points and all single failures
